@@ -9,7 +9,8 @@ from . import domain
 FUNCS_NAMED = [("fn", "1"), ("fn", "10"), ("fn1", "0")]   # fn#10 has no local version -> external
 FUNCS_DEFAULT = [("dfn", "1"), ("dfn1", "0"), ("dg", "2")]
 NARGS = 3
-VALKEYS = ["s0", "s1", "num", "none", "k3", "k6", "lst", "dct", "df", "arr", "k3b", "true", "flt"]
+VALKEYS = ["s0", "s1", "num", "none", "k3", "k6", "lst", "dct", "df", "arr", "k3b", "true", "flt", "part",
+           "part2"]
 OVERRIDES = [None, None, None, "ovr/shared", "ovr/other"]
 META_KEYS = ["log", "k2"]
 
@@ -23,7 +24,21 @@ def values():
         "k3": "x" * 3000, "k3b": "x" * 3000, "k6": b"y" * 6000, "lst": [1, 2, 3],
         "dct": {"a": 1, "b": [1.5, None]}, "df": pd.DataFrame({"a": [1, 2, 3], "b": ["x", "y", "z"]}),
         "arr": np.arange(5, dtype="int64"),
+        # partitions are created afresh for every memoize (storing one annotates the object)
+        "part": lambda: _partition({"a": 1, "b": "x" * 10, "c": [1.5, None]}),
+        "part2": lambda: _partition({"a": 1, "z": "other"}),
     }
+
+
+def _partition(d):
+    from twosigma.memento.partition import InMemoryPartition
+
+    return InMemoryPartition(dict(d))
+
+
+def val(vals, vk):
+    v = vals[vk]
+    return v() if callable(v) else v
 
 
 def gen_history(rng, length, readonly_safe=False, valkeys=None, funcs=3):
@@ -148,7 +163,8 @@ def apply_backend(backend, refs, vals, op, model_before=None):
     try:
         if k == "memoize":
             _, f, a, vk, ovr = op
-            backend.memoize(ovr, refs.memento(f, a, vals[vk]), vals[vk])
+            v = val(vals, vk)
+            backend.memoize(ovr, refs.memento(f, a, v), v)
             return None
         if k in ("read", "get"):
             m = backend.get_memento(refs.fwah(op[1], op[2]))
@@ -201,11 +217,11 @@ def answers_agree(op, expected, got, refs, vals):
     if k == "read":
         if expected == "absent" or got == "absent":
             return expected == got
-        return domain.eq(vals[expected[1]], got[1])
+        return domain.eq(val(vals, expected[1]), got[1])
     if k == "get":
         if expected == "absent" or got == "absent":
             return expected == got
-        return (got[1] == ResultType.from_object(vals[expected[1]]).name
+        return (got[1] == ResultType.from_object(val(vals, expected[1])).name
                 and got[2] == refs.qn[op[1]] and got[3] == refs.ah[op[1]][op[2]])
     if k == "list_fns":
         return got == sorted(refs.qn[i] for i in expected)
